@@ -7,7 +7,8 @@ exit 0: property held on everything explored (KNOWN-FINDING lines possible)
 exit 1: `VIOLATION property=<id> replay=<path>` printed
 exit 2: `HARNESS-ERROR ...` (build trouble, watchdog, internal assertion) - never a verdict
 """
-import argparse, hashlib, json, os, subprocess, sys, time, shutil, re
+import argparse
+import concurrent.futures, hashlib, json, os, subprocess, sys, time, shutil, re
 
 VERIF = os.path.dirname(os.path.dirname(os.path.abspath(__file__)))
 REPO = os.environ.get("VERIF_REPO", "/repo")
@@ -204,21 +205,49 @@ def main():
         nruns = max(1, int(tcfg["runs"] * a.scale))
         nw = min(NPROC, nruns)
         per = (nruns + nw - 1) // nw
-        procs = []
-        for j in range(nw):
-            out = os.path.join(BUILD, "out_%s_%s_%d.json" % (prop, part["world"], j))
-            if os.path.exists(out):
-                os.remove(out)
-            args = {"prop": prop, "world": part["world"], "mode": "batch", "tier": tier, "seed": seed ^ part.get("seed_salt", 0),
-                    "start": j, "stride": nw, "count": per, "out": out, "knobs": dict(tcfg.get("knobs", {})),
-                    "extra": dict(tcfg.get("extra", {})), "max_wall_s": int(tcfg.get("max_wall_s", 600) * max(1.0, a.scale)),
-                    "minimise_s": tcfg.get("minimise_s", 20)}
-            procs.append((worker_cmd(binary, args), out, j))
-        t0 = time.time()
         args_seed = seed ^ part.get("seed_salt", 0)
-        for p, out, j in procs:
-            so, _ = p.communicate()
-            if p.returncode != 0 or not os.path.exists(out):
+        max_wall = int(tcfg.get("max_wall_s", 600) * max(1.0, a.scale))
+
+        def run_slot(j):
+            """Worker slot j runs its share of the batch (runs j, j+nw, ...). A worker process that has accumulated
+            too much memory (goroutines left behind by crashed incarnations keep their scenario alive) stops early
+            and says where; a fresh process goes on from there."""
+            out = os.path.join(BUILD, "out_%s_%s_%d.json" % (prop, part["world"], j))
+            k0, remaining, res = 0, max_wall, []
+            while k0 < per:
+                if os.path.exists(out):
+                    os.remove(out)
+                args = {"prop": prop, "world": part["world"], "mode": "batch", "tier": tier, "seed": args_seed,
+                        "start": j + k0 * nw, "stride": nw, "count": per - k0, "out": out, "knobs": dict(tcfg.get("knobs", {})),
+                        "extra": dict(tcfg.get("extra", {})), "max_wall_s": max(1, int(remaining)),
+                        "minimise_s": tcfg.get("minimise_s", 20)}
+                p = worker_cmd(binary, args)
+                so, _ = p.communicate()
+                if p.returncode != 0 or not os.path.exists(out):
+                    res.append((p.returncode, so, None))
+                    break
+                sm = json.load(open(out))
+                os.remove(out)
+                if os.path.exists(out + ".cur"):
+                    os.remove(out + ".cur")
+                res.append((0, so, sm))
+                ra = sm.get("resume_at", 0)
+                if ra <= 0:
+                    break
+                k0 += ra
+                remaining -= sm.get("wall_s", 0)
+                if remaining <= 0:
+                    break
+            return j, out, res
+
+        t0 = time.time()
+        with concurrent.futures.ThreadPoolExecutor(max_workers=nw) as ex:
+            slots = list(ex.map(run_slot, range(nw)))
+        nproc_used = 0
+        for j, out, res in slots:
+          for rc, so, s in res:
+            nproc_used += 1
+            if s is None:
                 ci = crash_info(so)
                 cur = out + ".cur"
                 if ci and os.path.exists(cur):
@@ -234,10 +263,8 @@ def main():
                                                     "event_hash": "", "tape_len": sum(len(x) for x in tape.values()) if tape else 0, "orig_tape_len": 0, "world": part["world"], "crash": True, "batch_seed": args_seed})
                         total["runs"] += 1
                         continue
-                total["harness"].append("worker %d of world %s exited %s:\n%s" % (j, part["world"], p.returncode, so[-5000:]))
+                total["harness"].append("worker %d of world %s exited %s:\n%s" % (j, part["world"], rc, so[-5000:]))
                 continue
-            s = json.load(open(out))
-            os.remove(out)
             total["runs"] += s["runs"]
             total["nontrivial"] += s["nontrivial"]
             total["distinct"].update(s.get("distinct") or [])
@@ -255,7 +282,7 @@ def main():
                     total["samples"].append(sm)
             total["harness"].extend(s.get("harness_errors") or [])
         total["worker_wall_s"] += time.time() - t0
-        parts_desc.append({"world": part["world"], "runs_requested": nruns, "workers": nw})
+        parts_desc.append({"world": part["world"], "runs_requested": nruns, "workers": nw, "worker_processes": nproc_used})
 
     if total["harness"]:
         harness_error("%d harness errors; first:\n%s" % (len(total["harness"]), total["harness"][0]))
